@@ -19,8 +19,10 @@ def stage_settings_model(ctx):
             c = type(s).__name__
             if c not in ('Integer', 'IntegerS', 'ByteH', 'ByteL', 'Decimal'): continue
             vals = IM.setting_values(s, ctx.rng, False)[:: (1 if ctx.deep else 3)]
-            for v in vals:
-                prior = ctx.rng.randrange(65536)
+            # prior content of the setting's register: random, and for the one-byte settings (merged into a shared register) the boundary words
+            pv = [(v, ctx.rng.randrange(65536)) for v in vals]
+            if c in ('ByteH', 'ByteL'): pv += [(v, w) for w in IM.BOUNDARY_WORDS for v in vals[:2]]
+            for v, prior in pv:
                 sim.set(s.offset, prior)
                 n0 = len(sim.log)
                 try:
